@@ -75,7 +75,10 @@ type vTreeActor struct {
 	h            *vTreeH
 	path         string
 	crashOnStart bool
+	slowStop     bool
 }
+
+type vTreeSlowStop struct{ ack chan struct{} }
 
 func (a *vTreeActor) Receive(c *Context) {
 	defer a.h.enter(a.path)()
@@ -89,9 +92,16 @@ func (a *vTreeActor) Receive(c *Context) {
 		if a.h.e.Registry.get(c.PID()) != nil {
 			reg = "1"
 		}
+		if a.slowStop {
+			time.Sleep(1300 * time.Millisecond) // a Stopped handler that takes longer than a second
+		}
+		// logged when the handler is done: "has handled Stopped"
 		a.h.mu.Lock()
 		a.h.order = append(a.h.order, "X:"+a.path+":"+reg)
 		a.h.mu.Unlock()
+	case vTreeSlowStop:
+		a.slowStop = true
+		m.ack <- struct{}{}
 	case vTreeSpawn:
 		child := a.path + "." + m.name
 		pid := c.SpawnChild(func() Receiver { return &vTreeActor{h: a.h, path: child, crashOnStart: m.crashOnStart} }, m.name, a.h.opts()...)
@@ -351,7 +361,7 @@ func runTreeHistory(t testing.TB, ops []string) string {
 				delete(crashed, p)
 			}
 			out = append(out, res+" order="+strings.Join(takeOrder(), ","))
-		case "tp": // tp<parent>: the parent shuts down; while it waits for a slow child a third party stops a sibling
+		case "tp", "tq": // tp<parent>: the parent shuts down; while it waits for a slow child a third party stops a sibling (tq: the slow child stays busy for 5.5 s)
 			var kids []string
 			for p := range live {
 				if strings.HasPrefix(p, arg+".") && !strings.Contains(p[len(arg)+1:], ".") {
@@ -401,6 +411,9 @@ func runTreeHistory(t testing.TB, ops []string) string {
 					res = "VICTIM-HANG"
 				}
 			}
+			if kind == "tq" {
+				time.Sleep(5500 * time.Millisecond) // the slow child is still inside Receive, long after the parent began to stop
+			}
 			close(hd.ch)
 			select {
 			case <-done:
@@ -420,6 +433,19 @@ func runTreeHistory(t testing.TB, ops []string) string {
 				delete(crashed, p)
 			}
 			out = append(out, res+" order="+strings.Join(takeOrder(), ","))
+		case "zs": // zs<path>: from now on this node's Stopped handler takes 1.3 s
+			if !live[arg] {
+				out = append(out, "skip")
+				continue
+			}
+			ack := make(chan struct{}, 1)
+			e.Send(pidOf(arg), vTreeSlowStop{ack})
+			select {
+			case <-ack:
+				out = append(out, "slow")
+			case <-time.After(3 * time.Second):
+				out = append(out, "NOANSWER")
+			}
 		case "hp": // hold a node inside Receive and queue a graceful pill behind the hold (a third party poisons it)
 			if !live[arg] {
 				out = append(out, "skip")
@@ -464,6 +490,9 @@ func TestVerifTree(t *testing.T) {
 	for i, in := range vgen.CorpusInputs() {
 		s, _ := vgen.KV(in, "ops")
 		emit(fmt.Sprintf("corpus%d", i), strings.Split(s, ","))
+	}
+	for i := 0; i < vgen.Scale(0, 2); i++ { // thorough tier only: a child that stays busy for seconds while its parent stops
+		emit(fmt.Sprintf("long%d", i), []string{"rtr", "scr:a", "scr:b", "scr.a:c", "tqr", "chr"})
 	}
 	r := vgen.NewRng(vgen.Seed())
 	n := vgen.Scale(900, 6000)
@@ -512,6 +541,9 @@ func TestVerifTree(t *testing.T) {
 			if rr.Chance(1, 2) {
 				ops = append(ops, "ch"+vgen.Pick(rr, nodes))
 			}
+		}
+		if rr.Chance(1, 40) && len(nodes) > 1 { // one node whose Stopped handler is slow (costs 1.3 s of real time)
+			ops = append(ops, "zs"+nodes[1+rr.Intn(len(nodes)-1)])
 		}
 		ops = append(ops, "chr", "por")
 		emit(fmt.Sprintf("g%d", i), ops)
